@@ -1387,6 +1387,11 @@ func (v *VMValue) SetSlice(ctx *Context, a, b, step IntType, val *VMValue) bool 
 	}
 
 	offset := len(arr2.List) - int(_b-_a)
+	if offset > 0 && len(arr.List)+offset > 512 {
+		// 与 + * 和范围字面量一致: 一次操作不能把数组撑到超过上限，否则 a[0:0] = a 每次使长度翻倍
+		ctx.Error = errors.New("不能一次性创建过长的数组")
+		return false
+	}
 	newArr := make([]*VMValue, len(arr.List)+offset)
 
 	for i := IntType(0); i < _a; i++ {
